@@ -39,6 +39,9 @@ func registry() *minify.M {
 
 var extType = map[string]string{"css": "text/css", "js": "application/javascript", "html": "text/html", "json": "application/json", "svg": "image/svg+xml", "xml": "text/xml", "htm": "text/html", "mjs": "application/javascript", "xhtml": "application/xhtml+xml", "rss": "application/rss+xml", "webmanifest": "application/manifest+json"}
 
+// jsType: the media types the command registers the JS minifier for (cmd/minify README, "Types").
+var jsType = regexp.MustCompile(`^(application|text)/(x-)?(java|ecma|j|live)script(1\.[0-5])?$|^module$`)
+
 func typeOf(name string, ext map[string]string) (string, bool) {
 	e := strings.TrimPrefix(path.Ext(name), ".")
 	if t, ok := ext[e]; ok {
@@ -137,6 +140,8 @@ var shapes = []shape{
 	{"bundle→stdout", []string{"-b"}, "all", ""},
 	{"bundle --type js→file", []string{"-b", "--type", "js"}, "all", "bundle.out"},
 	{"bundle --mime application/javascript→stdout", []string{"-b", "--mime", "application/javascript"}, "all", ""},
+	{"bundle --mime text/javascript→file", []string{"-b", "--mime", "text/javascript"}, "all", "bundle.out"},
+	{"files -s→dir/", []string{"-s"}, "all", "out/"},
 	{"dir -r→dir/", []string{"-r"}, "src", "out/"},
 	{"dir/ -r→dir/", []string{"-r"}, "src/", "out/"},
 	{"dir -r→dir (no slash)", []string{"-r"}, "src", "out"},
@@ -175,6 +180,7 @@ type expect struct {
 	fail     bool // exit status must be non-zero
 	rejected bool // the invocation must be rejected: non-zero exit, nothing written
 	unsure   bool // the documentation does not settle the outcome: only "inputs unharmed" is checked
+	viaLink  bool // input and output are one file reached through a symbolic link: whether the name stays a link is not settled, but the property settles the content (new content, no leftover backup) and the exit status
 }
 
 type opts struct {
@@ -279,7 +285,7 @@ func hiddenPath(rel string) bool {
 func model(t clitree.Tree, sh shape, inputs []string, output string, stdin []byte) expect {
 	e := expect{files: map[string][]byte{}}
 	if strings.Contains(sh.name, "undocumented") {
-		e.unsure = true
+		e.unsure, e.viaLink = true, true
 	}
 	// symbolic links are followed for reading
 	rt := clitree.Tree{}
@@ -383,6 +389,11 @@ func model(t clitree.Tree, sh shape, inputs []string, output string, stdin []byt
 			return e
 		}
 		valid := o.filter(clean)
+		if valid && o.sync && o.typ == "" {
+			// "copies unselected files verbatim in sync mode": a file whose type is not known cannot be
+			// selected for minification, whether it was found in a directory or named on the command line
+			_, valid = typeOf(clean, o.ext)
+		}
 		if valid || o.sync {
 			if o.typ == "" && !o.sync {
 				if _, ok := typeOf(clean, o.ext); !ok {
@@ -427,7 +438,7 @@ func model(t clitree.Tree, sh shape, inputs []string, output string, stdin []byt
 			parts = append(parts, t[tk.src].Data)
 		}
 		sep := []byte(nil)
-		if typ == "application/javascript" {
+		if jsType.MatchString(typ) {
 			sep = []byte(";\n")
 		}
 		out, failed := libOutput(typ, bytes.Join(parts, sep))
@@ -438,6 +449,18 @@ func model(t clitree.Tree, sh shape, inputs []string, output string, stdin []byt
 			e.files[output] = out
 		}
 		return e
+	}
+	// two inputs with one destination cannot both be written there: the invocation is refused as a whole
+	// (main.go: "inputs … have the same destination"), whether the files would be minified or copied
+	seenDst := map[string]bool{}
+	for _, tk := range tasks {
+		if d := dest(tk); d != "" {
+			if seenDst[d] {
+				e = expect{files: map[string][]byte{}, rejected: true}
+				return e
+			}
+			seenDst[d] = true
+		}
 	}
 	for _, tk := range tasks {
 		d := dest(tk)
@@ -557,11 +580,14 @@ func compare(e expect, before clitree.Snap, r runResult) (kind string, what []st
 			}
 		}
 	}
-	if e.unsure {
+	if e.unsure && !e.viaLink {
 		return
 	}
 	for p, want := range e.files {
 		got, ok := r.after.Content(p)
+		if e.viaLink {
+			got, ok = through(r.after, p)
+		}
 		if !ok {
 			add("destination-missing", fmt.Sprintf("destination %s was not written (state: %s)", p, trunc(r.after[p])))
 		} else if !bytes.Equal(got, want) {
@@ -581,6 +607,21 @@ func compare(e expect, before clitree.Snap, r runResult) (kind string, what []st
 		add("exit-status", fmt.Sprintf("exit status %d although every file minifies (stderr %q)", r.exit, trunc(string(r.stderr))))
 	}
 	return
+}
+
+// through returns the bytes reachable through path p in a snapshot, following symbolic links.
+func through(s clitree.Snap, p string) ([]byte, bool) {
+	for i := 0; i < 4; i++ {
+		e, ok := s[p]
+		if !ok {
+			return nil, false
+		}
+		if !strings.HasPrefix(e, "link:") {
+			return s.Content(p)
+		}
+		p = path.Join(path.Dir(p), e[5:])
+	}
+	return nil, false
 }
 
 func trunc(s string) string {
@@ -677,6 +718,11 @@ func cases(maxFiles int) []caseT {
 	cs = append(cs,
 		caseT{clitree.Tree{"d/a.js": {Data: js}, "d/b.js": {Data: []byte("var b = 2 ;\n")}, "linkd": {Link: "d"}}, shape{"link to dir -r→dir (no slash)", []string{"-r"}, "src", "out"}, []string{"linkd"}, "out", nil},
 		caseT{clitree.Tree{"d/a.js": {Data: js}, "d/sub/c.css": {Data: css}, "linkd": {Link: "d"}}, shape{"link to dir -r→dir/", []string{"-r"}, "src", "out/"}, []string{"linkd"}, "out/", nil},
+	)
+	// a directory synchronised onto itself through a link to it: every file is its own destination
+	cs = append(cs,
+		caseT{clitree.Tree{"d/a.txt": {Data: []byte("hello\n")}, "d/b.css": {Data: css}, "linkd": {Link: "d"}}, shape{"link to dir/ -r -s→the dir itself", []string{"-r", "-s"}, "src/", "d/"}, []string{"linkd/"}, "d/", nil},
+		caseT{clitree.Tree{"d/a.txt": {Data: []byte("hello\n")}, "d/sub/c.txt": {Data: []byte("c\n")}, "linkd": {Link: "d"}}, shape{"link to dir -r -s→the dir itself", []string{"-r", "-s"}, "src", "d/"}, []string{"linkd/"}, "d/", nil},
 	)
 	return cs
 }
